@@ -53,8 +53,18 @@ def gen_case(rng):
             ops.append(['s', o, wh])
         else:
             ops.append(['t'])
+    # the engine is shared state: the key of the slot may arrive late (reads before that are refused and consume nothing) and may be
+    # replaced between two reads (every read decrypts under the key the engine holds for the slot at that moment)
+    late = rng.random() < 0.15
+    if late or rng.random() < 0.2:
+        for _ in range(rng.randrange(1, 3)):
+            ops.insert(rng.randrange(1 if late else 0, len(ops) + 1) if ops else 0, ['k', pyenv.rbytes(rng, 16).hex()])
+        if late:
+            ops.insert(0, ['r', rng.choice([1, 10, 16, -1])])
+            if rng.random() < 0.5:
+                ops.insert(0, ['s', rng.choice([0, 5, 16, 20]), 0])
     # any keyslot: CBC is the same cipher in all of them (the DSi slots 0-3 only differ for CTR)
-    return dict(kind=kind, off=off, sz=sz, base=base.hex(), key=pyenv.rbytes(rng, 16).hex(), iv=pyenv.rbytes(rng, 16).hex(), ops=ops,
+    return dict(late=late, kind=kind, off=off, sz=sz, base=base.hex(), key=pyenv.rbytes(rng, 16).hex(), iv=pyenv.rbytes(rng, 16).hex(), ops=ops,
                 slot=rng.choice([0x40, 0x40, 0x00, 0x01, 0x03, 0x04, 0x2C, 0x3D, 0x11]))
 
 
@@ -67,6 +77,9 @@ def run_case(ctx, mr, case):
     LoggedBytesIO.writes = 0
     slot = case.get('slot', 0x40)
     e = cc.make_engine(key, slot)
+    late = case.get('late', False)
+    if late:
+        del e.key_normal[slot]
     under = bio if case['kind'] == 'plain' else SubsectionIO(bio, off, sz)
     v = e.create_cbc_io(slot, under, iv)
     ct = base[off:off + sz] if case['kind'] == 'window' else base
@@ -77,7 +90,17 @@ def run_case(ctx, mr, case):
 
     c = fc.Contract(v, plain, fail, writable=False)
     c.flags()
+    if late:
+        c.read_error = 'Pyctr' + str(__import__('harness.kernels', fromlist=['x']).PYCTR_ERRS['KeyslotMissingError'])
+    rekeyed = late
     for op in case['ops']:
+        if op[0] == 'k':
+            e.set_normal_key(slot, bytes.fromhex(op[1]))
+            c.content = bytearray(AES.new(bytes.fromhex(op[1]), AES.MODE_CBC, iv).decrypt(ct) if ct else b'')
+            c.read_error = None
+            rekeyed = True
+            ctx.stat('cbc_rekey')
+            continue
         c.step(op)
     res = c.results
     try:
@@ -102,6 +125,9 @@ def run_case(ctx, mr, case):
         fail('flush-raises', 'flush() raised', None, pyenv.errname(ex))
     if LoggedBytesIO.writes or bio.getvalue() != base:
         fail('wrote-underlying', 'the wrapper wrote to the underlying file', 'no writes', LoggedBytesIO.writes)
+    ctx.stat('cbc_' + case['kind'])
+    if rekeyed:
+        return              # the model line carries one key; histories with a key change are judged by the oracle alone
     line = (f'cbc {case["kind"]} {zhex(off)} {zhex(sz)} h:{case["key"]} h:{case["iv"]} h:{case["base"]} '
             + ' '.join(fc.op_line(o) for o in case['ops']))
     out = mr.ask(line)
@@ -111,7 +137,6 @@ def run_case(ctx, mr, case):
         k = next((i for i, (a, b) in enumerate(zip(mres, res)) if a != b), None)
         ctx.diff('corr', 'cbc-model', case, mres[k] if k is not None else '?', res[k] if k is not None else '?',
                  f'CBC wrapper: Coq model and implementation differ at op {k}')
-    ctx.stat('cbc_' + case['kind'])
 
 
 def exhaustive():
